@@ -722,3 +722,60 @@ pub fn build_concat_case(choices: Vec<u32>) -> GraphCase {
         raw_programs: vec![],
     }
 }
+
+/// Mutation-decoding race: solutions of one contract whose data leaves compute the same key; the lower-indexed
+/// solution first computes a long list of other mutations. The blamed solution must not depend on timing.
+pub fn build_mutation_race_case(choices: Vec<u32>) -> GraphCase {
+    let mut ch = Chooser::new(choices);
+    let nsol = 2 + ch.pick(2);
+    let clash = 7i64;
+    let mut programs = Vec::new();
+    let mut predicates = Vec::new();
+    let mut solutions = Vec::new();
+    for si in 0..nsol {
+        // solution 0 (sometimes 1) has the long list
+        let n: i64 = if si == 0 || (si == 1 && ch.chance(1, 3)) { 200 + ch.pick(1500) as i64 } else { ch.pick(3) as i64 };
+        let clashes = si < 2 || ch.chance(1, 2);
+        let total = n + i64::from(clashes);
+        let mut p = trace_prologue(0);
+        // memory: [total, (1, key, 1, value) * total]
+        p.extend([PUSH(1 + 4 * total), ALOC, POP, PUSH(total), PUSH(0), STO]);
+        if n > 0 {
+            p.extend([PUSH(n), PUSH(1), REP]);
+            // base = 1 + 4 * counter
+            p.extend([REPC, PUSH(4), MUL, PUSH(1), ADD]); // [base]
+            p.extend([DUP, PUSH(1), SWAP, STO]); // mem[base] = 1
+            p.extend([DUP, PUSH(1), ADD, REPC, PUSH(1000 * (si as i64 + 1)), ADD, SWAP, STO]); // mem[base+1] = key
+            p.extend([DUP, PUSH(2), ADD, PUSH(1), SWAP, STO]); // mem[base+2] = 1
+            p.extend([PUSH(3), ADD, PUSH(9), SWAP, STO]); // mem[base+3] = 9
+            p.push(REPE);
+        }
+        if clashes {
+            let base = 1 + 4 * n;
+            for (off, w) in [(0, 1i64), (1, clash), (2, 1), (3, 40 + si as i64)] {
+                p.extend([PUSH(w), PUSH(base + off), STO]);
+            }
+        }
+        p.push(PUSH(2));
+        predicates.push(PredSpec {
+            nodes: vec![NodeSpec { edge_start: LEAF, prog: programs.len() }],
+            edges: vec![],
+        });
+        programs.push(p);
+        solutions.push(SolSpec {
+            pred: si,
+            contract: C_A,
+            data: vec![vec![sol_tag(si)]],
+            mutations: vec![],
+        });
+    }
+    GraphCase {
+        programs,
+        predicates,
+        solutions,
+        pre_state: MapSpec::default(),
+        collect_all: ch.chance(1, 2),
+        mode: [0u8, 2][ch.pick(2)],
+        raw_programs: vec![],
+    }
+}
